@@ -524,12 +524,15 @@ ApplyBuiltin(s, f, args) ==
          \* bad arguments are a panic; how such a call counts in the summary is not documented
          ELSE IF (Len(args) = 1 /\ args[1].v.t # "bool") \/ (Len(args) > 2 /\ args[3].v.t # "str")
          THEN (IF TheCase.noSummary \/ s.ph # "main" THEN Panic(s, "badargs") ELSE Unspec(s))
-         ELSE IF Len(args) > 3 THEN Unspec(s)
          ELSE LET pass == IF Len(args) = 1 THEN args[1].v.b ELSE SameVal(args[1], args[2], s.heap)
                   s1 == [s EXCEPT !.tt = s.tt + 1, !.tf = s.tf + (IF pass THEN 0 ELSE 1)]
-                  \* the text of a failed test contains its message (third argument) literally
-                  s2 == IF ~pass /\ Len(args) = 3 THEN [s1 EXCEPT !.msgs = Append(s1.msgs, [cp |-> args[3].v.cp])] ELSE s1
-              IN IF ~pass /\ TheCase.failFast THEN End(s2, "testfail") ELSE RetPop(s2, VNone)
+                  \* the text of a failed test contains its message: the third argument, a format
+                  \* string for the arguments after it
+                  msg == IF Len(args) = 3 THEN [ok |-> "ok", cp |-> args[3].v.cp]
+                         ELSE FmtGo(s, args[3].v.cp, SubSeq(args, 4, Len(args)), <<>>)
+                  s2 == IF ~pass /\ Len(args) >= 3 THEN [s1 EXCEPT !.msgs = Append(s1.msgs, [cp |-> msg.cp])] ELSE s1
+              IN IF Len(args) > 3 /\ msg.ok # "ok" THEN Unspec(s)
+                 ELSE IF ~pass /\ TheCase.failFast THEN End(s2, "testfail") ELSE RetPop(s2, VNone)
     \* graphics and other built-ins without a rule here are opaque: outcome not specified by this module
     [] f \in Builtins -> Unspec(s)
     [] OTHER -> Stuck(s)
@@ -561,7 +564,9 @@ Enter(s, x) ==
     [] x.k = "str"  -> Ret(s, VStr(x.cp))
     [] x.k = "bool" -> Ret(s, VBool(x.b))
     [] x.k = "var"  -> LET i == FindScope(s.env, x.nm, Len(s.env))
-                       IN IF i = 0 THEN Panic(s, "varnotset") ELSE Ret(s, s.env[i][x.nm])
+                       \* pi is a global of the built-in library; its value is outside the exact numbers
+                       IN IF i = 0 THEN (IF x.nm = "pi" THEN Unspec(s) ELSE Panic(s, "varnotset"))
+                          ELSE Ret(s, s.env[i][x.nm])
     [] x.k = "wrap" -> EvalPush(s, x.x, [f |-> "wrap", ty |-> x.x.ty])
     [] x.k = "arr"  -> IF Len(x.xs) = 0 THEN Ret(Alloc(s, OArr(<<>>)), VArr(NewAddr(s)))
                        ELSE EvalPush(s, x.xs[1], [f |-> "arrL", xs |-> x.xs, vs |-> <<>>])
